@@ -134,6 +134,58 @@ def oracle(sc, ctx, program):
         tag = "+".join(m[0] for m in hist) or "built"
         for sig, msg in check_roundtrip(h, tag):
             out.append((sig, f"{msg} | history={hist} | program={program}"))
+    for sig, msg in loaded_origin(factory, _TIER):
+        out.append((sig, f"{msg} | program={program}"))
+    return out
+
+
+def loaded_origin(factory, tier):
+    """Start from the other origin: the *loaded* copy L of the built HUGR H is mutated.  (a) every mutated L
+    round-trips like any other HUGR; (b) differential, no hand-written expectation: the same mutation applied
+    to H and (translated through the hierarchy numbering) to L leaves the two with the same observable
+    structure - a reader that dropped something the queries do not show (port counts, free-index lists,
+    link bookkeeping) gives itself away at the next mutation."""
+    out = []
+    for hist, l in mutate.loaded_histories(factory, tier):
+        tag = "loaded+" + hist[1][0]
+        if l is None:
+            out.append((f"loaded-origin:mutation-raised:{hist[1][0]}", f"{hist[2][1]} | history={hist}"))
+            continue
+        for sig, msg in check_roundtrip(l, tag):
+            out.append((sig, f"{msg} | history={hist}"))
+    try:
+        h0 = factory()
+        l0 = mutate.load_copy(h0)
+    except Exception:  # noqa: BLE001 - reported by check_roundtrip of the built HUGR
+        return out
+    for m in mutate.first_of_each(mutate.menu(h0, tier), mutate.LOADED_KINDS):
+        ml = mutate.translate(m, h0, l0)
+        if ml is None:
+            continue
+        h, l = factory(), mutate.load_copy(factory())
+        mutate.observe(h)
+        mutate.observe(l)
+        try:
+            mutate.apply(h, m)
+        except Exception:  # noqa: BLE001 - the mutation is not applicable to the built HUGR either
+            continue
+        try:
+            mutate.apply(l, ml)
+        except Exception as e:  # noqa: BLE001
+            out.append((f"loaded-origin:mutation-raised:{m[0]}", f"{m} succeeds on the built HUGR, {ml} on its loaded copy raised {type(e).__name__}: {e}"))
+            continue
+        (s1, k1), (s2, k2) = structure(h), structure(l)
+        if len(s1) != len(s2):
+            out.append((f"loaded-origin:differs:node-count:{m[0]}", f"after {m}: {len(s1)} nodes from the built HUGR, {len(s2)} from its loaded copy"))
+            continue
+        for i, (a, b) in enumerate(zip(s1, s2)):
+            bad = [key for key in a if a[key] != b[key]]
+            if bad:
+                out.append((f"loaded-origin:differs:{bad[0]}:{m[0]}", f"after {m}: node {i} ({a['op'].get('op')}) {bad[0]} is {str(a[bad[0]])[:200]} from the built HUGR, {str(b[bad[0]])[:200]} from its loaded copy"))
+                break
+        else:
+            if k1 != k2:
+                out.append((f"loaded-origin:differs:links():{m[0]}", f"after {m}: links() lost {dict(k1 - k2)} gained {dict(k2 - k1)} on the loaded copy"))
     return out
 
 
@@ -147,6 +199,8 @@ def ladder_judge(case):
         tag = "+".join(m[0] for m in hist) or "built"
         for sig, msg in check_roundtrip(h, tag):
             out.append((f"{sig}:ladder-{case[0]}", f"{msg} | history={hist} | ladder={case}"))
+    for sig, msg in loaded_origin(lambda: ladder.build(case), "quick"):
+        out.append((f"{sig}:ladder-{case[0]}", f"{msg} | ladder={case}"))
     return out
 
 
